@@ -1,0 +1,265 @@
+//! Verification hooks. Only compiled with the cargo feature `verif_hooks`; not part of the API.
+//!
+//! Everything in here is additive instrumentation for the external model-checking harness:
+//! per-run statistics and horizons (fuel, branch-stack cap), a scheduling point, a whole-copy
+//! shadow monitor for the backtracking state, a read-only dump of the static analysis, a wrapper
+//! around the VM's private `State`, and two attribution switches for known findings.
+
+#![allow(missing_docs)]
+
+use alloc::boxed::Box;
+use alloc::string::String;
+use alloc::vec::Vec;
+use std::cell::{Cell, RefCell};
+
+use crate::analyze::{analyze, Info};
+use crate::parse::Parser;
+use crate::{wrap_tree, Result};
+
+pub use crate::vm::VmState;
+
+/// Statistics of `vm::run` calls made by the current thread since the last `reset_stats`.
+#[derive(Clone, Copy, Debug, Default, PartialEq, Eq)]
+pub struct RunStats {
+    /// Number of `vm::run` calls
+    pub runs: u64,
+    /// Instructions executed
+    pub insns: u64,
+    /// Backtracks taken (pops of the branch stack by the main loop)
+    pub backtracks: u64,
+    /// Branches pushed
+    pub pushes: u64,
+    /// Peak depth of the branch stack
+    pub peak_stack: usize,
+    /// Number of runs cut off because the instruction fuel ran out
+    pub fuel_exhausted: u64,
+    /// Number of pops/cuts after which the state differed from the whole-copy shadow
+    pub shadow_violations: u64,
+    /// Number of pops/cuts compared against the shadow
+    pub shadow_checks: u64,
+}
+
+thread_local! {
+    static STATS: Cell<RunStats> = Cell::new(RunStats::default());
+    static FUEL: Cell<u64> = Cell::new(0);
+    static MAX_STACK: Cell<usize> = Cell::new(0);
+    static SHADOW: Cell<bool> = Cell::new(false);
+    static SHADOW_MSG: RefCell<Option<String>> = RefCell::new(None);
+    static COND_LEAK_REPAIR: Cell<bool> = Cell::new(false);
+    static FLAG_SCOPE_REPAIR: Cell<bool> = Cell::new(false);
+    static SCHED: RefCell<Option<Box<dyn FnMut(u32)>>> = RefCell::new(None);
+    static SCHED_ON: Cell<bool> = Cell::new(false);
+}
+
+pub fn reset_stats() {
+    STATS.with(|s| s.set(RunStats::default()));
+    SHADOW_MSG.with(|m| *m.borrow_mut() = None);
+}
+
+pub fn stats() -> RunStats {
+    STATS.with(|s| s.get())
+}
+
+/// Instruction fuel per `vm::run` call for this thread; 0 = unlimited.
+pub fn set_fuel(fuel: u64) {
+    FUEL.with(|f| f.set(fuel));
+}
+
+/// Override of the branch-stack cap for this thread; 0 = the crate's default.
+pub fn set_max_stack(max: usize) {
+    MAX_STACK.with(|f| f.set(max));
+}
+
+pub(crate) fn max_stack_override() -> usize {
+    MAX_STACK.with(|f| f.get())
+}
+
+/// Enable the whole-copy shadow monitor for `vm::run` calls of this thread.
+pub fn set_shadow(on: bool) {
+    SHADOW.with(|f| f.set(on));
+}
+
+pub(crate) fn shadow_enabled() -> bool {
+    SHADOW.with(|f| f.get())
+}
+
+/// First shadow violation message since the last `reset_stats`, if any.
+pub fn shadow_message() -> Option<String> {
+    SHADOW_MSG.with(|m| m.borrow().clone())
+}
+
+pub(crate) fn shadow_report(ok: bool, msg: impl FnOnce() -> String) {
+    STATS.with(|s| {
+        let mut st = s.get();
+        st.shadow_checks += 1;
+        if !ok {
+            st.shadow_violations += 1;
+        }
+        s.set(st);
+    });
+    if !ok {
+        SHADOW_MSG.with(|m| {
+            let mut m = m.borrow_mut();
+            if m.is_none() {
+                *m = Some(msg());
+            }
+        });
+    }
+}
+
+/// Attribution switch for the known finding "conditional leaves a stale entry on the auxiliary
+/// stack": when set, `compile_conditional` emits the `EndAtomic` the false branch lacks.
+pub fn set_cond_leak_repair(on: bool) {
+    COND_LEAK_REPAIR.with(|f| f.set(on));
+}
+
+pub(crate) fn cond_leak_repair() -> bool {
+    COND_LEAK_REPAIR.with(|f| f.get())
+}
+
+/// Attribution switch for the known finding "inline flags leak out of groups": when set, the
+/// parser restores the flags at the closing parenthesis of every group.
+pub fn set_flag_scope_repair(on: bool) {
+    FLAG_SCOPE_REPAIR.with(|f| f.set(on));
+}
+
+pub(crate) fn flag_scope_repair() -> bool {
+    FLAG_SCOPE_REPAIR.with(|f| f.get())
+}
+
+/// Install (or remove) the scheduling-point callback of the current thread.
+pub fn set_sched_hook(hook: Option<Box<dyn FnMut(u32)>>) {
+    SCHED_ON.with(|f| f.set(hook.is_some()));
+    SCHED.with(|s| *s.borrow_mut() = hook);
+}
+
+#[inline]
+pub(crate) fn sched_on() -> bool {
+    SCHED_ON.with(|f| f.get())
+}
+
+/// A scheduling point; a no-op for threads without an installed callback.
+pub fn sched_point(site: u32) {
+    SCHED.with(|s| {
+        if let Ok(mut s) = s.try_borrow_mut() {
+            if let Some(hook) = s.as_mut() {
+                hook(site);
+            }
+        }
+    });
+}
+
+pub const SITE_RUN_ENTRY: u32 = 0xffff_0001;
+pub const SITE_RUN_EXIT: u32 = 0xffff_0002;
+
+/// Per-run counters, flushed to the thread-local statistics when dropped.
+pub(crate) struct RunGuard {
+    pub(crate) insns: u64,
+    pub(crate) backtracks: u64,
+    pub(crate) fuel: u64,
+    pub(crate) sched: bool,
+    pub(crate) fuel_exhausted: bool,
+    pub(crate) pushes: u64,
+    pub(crate) peak_stack: usize,
+    last_depth: usize,
+}
+
+impl RunGuard {
+    pub(crate) fn new() -> RunGuard {
+        let g = RunGuard {
+            insns: 0,
+            backtracks: 0,
+            fuel: FUEL.with(|f| f.get()),
+            sched: sched_on(),
+            fuel_exhausted: false,
+            pushes: 0,
+            peak_stack: 0,
+            last_depth: 0,
+        };
+        if g.sched {
+            sched_point(SITE_RUN_ENTRY);
+        }
+        g
+    }
+
+    /// Called before every instruction with the current depth of the branch stack (every
+    /// instruction pushes at most one branch).
+    #[inline]
+    pub(crate) fn on_depth(&mut self, depth: usize) {
+        if depth > self.last_depth {
+            self.pushes += 1;
+            if depth > self.peak_stack {
+                self.peak_stack = depth;
+            }
+        }
+        self.last_depth = depth;
+    }
+
+    /// Called before every instruction; returns true if the run must be cut off.
+    #[inline]
+    pub(crate) fn on_insn(&mut self, pc: usize) -> bool {
+        self.insns += 1;
+        if self.fuel != 0 && self.insns > self.fuel {
+            self.fuel_exhausted = true;
+            return true;
+        }
+        if self.sched {
+            sched_point(pc as u32);
+        }
+        false
+    }
+}
+
+impl Drop for RunGuard {
+    fn drop(&mut self) {
+        if self.sched {
+            sched_point(SITE_RUN_EXIT);
+        }
+        STATS.with(|s| {
+            let mut st = s.get();
+            st.runs += 1;
+            st.insns += self.insns;
+            st.backtracks += self.backtracks;
+            st.pushes += self.pushes;
+            if self.peak_stack > st.peak_stack {
+                st.peak_stack = self.peak_stack;
+            }
+            if self.fuel_exhausted {
+                st.fuel_exhausted += 1;
+            }
+            s.set(st);
+        });
+    }
+}
+
+/// Owned copy of the static analysis of one node; same shape as the `Expr` tree returned by
+/// `Expr::parse_tree` for the same pattern.
+#[derive(Clone, Debug, PartialEq, Eq)]
+pub struct NodeDump {
+    pub min_size: usize,
+    pub const_size: bool,
+    pub hard: bool,
+    pub start_group: usize,
+    pub end_group: usize,
+    pub children: Vec<NodeDump>,
+}
+
+fn dump(info: &Info<'_>) -> NodeDump {
+    NodeDump {
+        min_size: info.min_size,
+        const_size: info.const_size,
+        hard: info.hard,
+        start_group: info.start_group,
+        end_group: info.end_group,
+        children: info.children.iter().map(dump).collect(),
+    }
+}
+
+/// Parse and analyze `re` exactly as `Regex::new` does and return the analysis of the
+/// user-written expression (the child of the implicit group 0).
+pub fn analysis(re: &str) -> Result<NodeDump> {
+    let raw_tree = Parser::parse(re)?;
+    let tree = wrap_tree(raw_tree);
+    let info = analyze(&tree)?;
+    Ok(dump(&info.children[1].children[0]))
+}
